@@ -2,7 +2,7 @@
 import os
 
 from tools import common
-from tools.translate import gen_panel, gen_conn, gen_field, gen_num, gen_conecyl
+from tools.translate import gen_panel, gen_conn, gen_field, gen_num, gen_conecyl, gen_conecyl_nl, gen_shell_jacobian
 from tools.translate import ctables as ct
 
 if __name__ == '__main__':
@@ -11,6 +11,12 @@ if __name__ == '__main__':
     gen_field.translate_all()
     gen_num.translate_all()
     gen_conecyl.translate_all()
+    # C17 stage 2: non-linear shell kernels (Gen/ConeCylNL/*) and the per-model case lemmas instantiated for them
+    # (Spec/ShellJacobian/<Model>(/*).lean; which identities are claimed is decided by exact evaluation of the IR)
+    for name, M in gen_conecyl_nl.translate_all().items():
+        gen_shell_jacobian.generate(name, M)
+    for name in ('FsdtDonnellBc1', 'FsdtDonnellBcn'):          # FSDT: IR + Gen file + kernel-checkable refutation only
+        gen_shell_jacobian.emit_fsdt_refutation(name)
     gen = os.path.join(common.LEAN, 'CompmechVerif', 'Gen', 'CTables')
     os.makedirs(gen, exist_ok=True)
     ct.emit_all(common.REPO, gen, common.write_if_changed)
